@@ -295,7 +295,8 @@ def gen_case(rng, cid, tier, hist):
         ss.append({'name': name, 'kind': kind, 'entries': [(i, rng.choice(VALS) if kind & 4 else 8 * rng.randint(1, 6)) for i in idx]})
     c['ssuf'] = ss
     k = rng.random()
-    c['mode'] = 0 if k < 0.8 else 1 if k < 0.94 else 2
+    # Solve() spawns the fake solver through std::system: fewer of them in the quick tier
+    c['mode'] = (0 if k < 0.8 else 1 if k < 0.94 else 2) if tier == 'thorough' else (0 if k < 0.92 else 1 if k < 0.98 else 2)
     if c['ssuf'] and rng.random() < 0.06:
         sfx = rng.choice(c['ssuf'])
         size = n if sfx['kind'] % 4 == 0 else m if sfx['kind'] % 4 == 1 else 1
@@ -782,6 +783,75 @@ def coverage(ck, cases, label):
     res['anchor_branch_cov'] = round(100.0 * tot_bc / max(1, tot_b), 1)
     return res, '\n'.join(md)
 
+
+def model_arms(cases):
+    """which `if` / `match` arms of the Lean model functions (Model.lean) the correspondence stream takes, by the input
+    condition that selects the arm (the driver evaluates exactly these functions on every case)"""
+    A = {}
+
+    def hit(k, cond=True):
+        A.setdefault(k, 0)
+        if cond:
+            A[k] += 1
+    prev_n = {}
+    for c in cases:
+        n, m = c['n'], c['m']
+        qent = [(i, col, v) for i, row in enumerate(c['Q']) for (col, v) in row]
+        nl = set([i for i, _, _ in qent] + [col for _, col, _ in qent])
+        hit('isInt: types = none', c['types'] is None); hit('isInt: types = some', c['types'] is not None)
+        for j in range(n):
+            it = bool(c['types'] and c['types'][j]); b = c['lb'][j] == 0 and c['ub'][j] == 8
+            k = (-2 if j in nl else 0) + ((2 if (j not in nl and not b) else 1) if it else 0)
+            hit('key = %d' % k)
+            hit('isBin01 true on an integer column', it and b); hit('isBin01 false on an integer column', it and not b)
+            for bn, nm in ((c['lb'][j], 'lb'), (c['ub'][j], 'ub')):
+                hit('Bnd.%s %s' % ('ninf' if bn == '-I' else 'pinf' if bn == 'I' else 'fin', nm))
+            hit('decodeIsInt: linear integer block (first arm)', it and j not in nl)
+            hit('decodeIsInt: nonlinear integer block', it and j in nl)
+            hit('decodeIsInt: continuous (both tests false)', not it)
+        hit('qEntries / feedObjExpr: nnz = 0', not qent); hit('feedObjExpr: nnz > 0', bool(qent))
+        hit('feedObjExpr: c0 != 0 inside the sum', bool(qent) and c['c0'] != 0); hit('feedObjExpr: c0 = 0 inside the sum', bool(qent) and c['c0'] == 0)
+        hit('numPad > 0 (sum padded to 3 arguments)', bool(qent) and len(qent) + (1 if c['c0'] else 0) < 3)
+        hit('driver: constant objective printed as nil (c0 = 0, nnz = 0)', not qent and c['c0'] == 0)
+        hit('cCoef: c = none', c['c'] is None); hit('cCoef: c = some', c['c'] is not None)
+        hit('walkDesc: empty Hessian row', any(not r for r in c['Q']) and bool(qent)); hit('walkDesc: nonempty row', bool(qent))
+        hit('supp false for some column (sparse gradient)', any((c['c'] is None or c['c'][j] == 0) and j not in nl for j in range(n)))
+        hit('feedLinearConExpr: last row (end = nnz)', m > 0); hit('feedLinearConExpr: inner row (end = start[i+1])', m > 1)
+        hit('feedLinearConExpr: empty row', any(not r for r in c['A']))
+        hit('feedInitialGuesses nonempty', bool(c['ws'])); hit('feedInitialDualGuesses nonempty', bool(c['dws']))
+        seen = set()
+        for s_ in c['sufs']:
+            key_ = (s_['name'], s_['kind'] & 3)
+            hit('sufSet: duplicate (name, kind&3) dropped', key_ in seen); seen.add(key_)
+            hit('feedSuffix: variable suffix (through vperm)', s_['kind'] % 4 == 0); hit('feedSuffix: non-variable suffix', s_['kind'] % 4 != 0)
+            hit('feedSuffix: double suffix', bool(s_['kind'] & 4)); hit('feedSuffix: integer suffix (roundHA)', not s_['kind'] & 4)
+            hit('roundHA: negative argument', not s_['kind'] & 4 and any(v < 0 for v in s_['values']))
+            hit('roundHA: non-integral argument', not s_['kind'] & 4 and any(v % 8 for v in s_['values']))
+            hit('feedSuffix: all values zero (suffix not written)', all(v == 0 for v in s_['values']))
+            for kk in range(4):
+                hit('sufSize / nmax arm kind%%4 = %d' % kk, s_['kind'] % 4 == kk)
+        hit('feedColNames none', c['cn'] is None); hit('feedColNames some', c['cn'] is not None)
+        hit('feedRowObjNames none', c['rn'] is None); hit('feedRowObjNames some', c['rn'] is not None)
+        hit('onPrimalPd: no primal values', not c['solx']); hit('onPrimalPd: values', bool(c['solx']))
+        hit('onPrimalPd: fewer values than columns', 0 < len(c['solx']) < n)
+        for s_ in c['ssuf']:
+            size = n if s_['kind'] % 4 == 0 else m if s_['kind'] % 4 == 1 else 1
+            hit('onSuffixPd: variable suffix (through vperm_inv)', s_['kind'] % 4 == 0); hit('onSuffixPd: non-variable suffix', s_['kind'] % 4 != 0)
+            hit('solSuffixOk false (index out of range)', any(i >= size for (i, _) in s_['entries']))
+        hit('stickyErr: error flag already set by an earlier model of the session', c.get('_err_before', False))
+        hit('computeObjValue evaluated (full primal vector returned)', len(c['solx']) == n)
+        hit('api = C wrapper', c['api'] == 1); hit('api = C++', c['api'] == 0)
+        if c.get('session'):
+            pn = prev_n.get(c['session'])
+            hit('exportPrepro: first model of a session (resize pads from empty)', pn is None)
+            hit('exportPrepro: previous model had more columns (resize truncates)', pn is not None and pn > n)
+            hit('exportPrepro: previous model had fewer columns (resize pads)', pn is not None and pn < n)
+            hit('exportPrepro: previous model had the same size', pn is not None and pn == n)
+            prev_n[c['session']] = n
+        else:
+            hit('exportPrepro: fresh PreprocessData (session 0)')
+    return A
+
 # ------------------------------------------------------------------------------------------- running
 def group(text):
     """split an output stream into {case id: [lines]} (suffix lines sorted: they come out of std::set / hash order)"""
@@ -978,6 +1048,9 @@ def run(ck):
     ck.cov['oracle_signatures_seen'] = sigcount
     ck.cov['cases_where_oracle_is_fully_satisfied'] = n_clean
     ck.cov['generator_histogram'] = hist
+    arms = model_arms(cases)
+    ck.cov['model_arms_exercised'] = arms
+    ck.cov['model_arms_never_taken'] = sorted(k_ for k_, v_ in arms.items() if v_ == 0)
     ck.cov['corpus_cases'] = ncorp
     ck.cov['exhaustive'] = False
     ck.log('cases=%d identical=%d lines=%d property-clean=%d oracle signatures (cases)=%s' % (len(order), n_cases_agree, n_lines, n_clean, sigcount))
